@@ -54,8 +54,9 @@ real_t _kendall_corr(const arr_real& x, const arr_real& y) noexcept {
     const auto [_, x_idx] = sort(x);
     const auto ybyx = y[x_idx];
 
-    int n_c = 0;
-    int n_d = 0;
+    //n*(n-1)/2 pairs: more than an int holds from n = 65537 on
+    int64_t n_c = 0;
+    int64_t n_d = 0;
     for (int i = 0; i < (n - 1); ++i) {
         for (int k = (i + 1); k < n; ++k) {
             if (ybyx[i] < ybyx[k]) {
